@@ -136,7 +136,7 @@ func c14Families(tier string) []explore.Family {
 	}
 	nCfg := 64
 	G, A, B, M := len(graphs), len(c14Args), len(c14Bodies), len(mains)
-	return []explore.Family{c14ChangeFamily(), c14TwoRootsFamily(), {Name: "include-configurations", Count: int64(nCfg * G * A * B * M * 2), Run: func(i int64, r *explore.Rec) {
+	return []explore.Family{c14ChangeFamily(), c14TwoRootsFamily(), c14ChainFamily(), {Name: "include-configurations", Count: int64(nCfg * G * A * B * M * 2), Run: func(i int64, r *explore.Rec) {
 		rx := radix{i}
 		noPath := rx.next(2) == 1
 		mi, bi, ai, gi, cfg := rx.next(M), rx.next(B), rx.next(A), rx.next(G), rx.next(nCfg)
@@ -432,6 +432,85 @@ func c14TwoRootsFamily() explore.Family {
 			}
 		}
 		r.Class("two-roots/" + lay.name)
+	}}
+}
+
+// c14ChainFamily: include chains of depth 1..12 (file k includes file k+1) and templates with 1..40 sibling
+// includes, on disk and from the cache; the last file of a chain may be missing.
+func c14ChainFamily() explore.Family {
+	depths := []int{1, 2, 3, 4, 7, 8, 9, 12}
+	return explore.Family{Name: "include-chains-and-many-siblings", Count: int64(len(depths) * 2 * 2 * 2), Run: func(i int64, r *explore.Rec) {
+		rx := radix{i}
+		siblings, lastMissing, cached, d := rx.next(2) == 1, rx.next(2) == 1, rx.next(2) == 1, depths[rx.next(len(depths))]
+		dir := filepath.Join(c14.root, "chain")
+		os.RemoveAll(dir)
+		os.MkdirAll(dir, 0o755)
+		eng := liquid.NewEngine()
+		put := func(name, content string) {
+			full := filepath.Join(dir, name)
+			if cached {
+				if _, err := eng.ParseTemplateAndCache([]byte(content), full, 1); err != nil {
+					panic(explore.BaselineFailure{Msg: err.Error()})
+				}
+				return
+			}
+			if err := os.WriteFile(full, []byte(content), 0o644); err != nil {
+				panic(err)
+			}
+		}
+		var mainSrc, want string
+		if siblings {
+			n := d * 3 // 3..36 sibling includes
+			for k := 0; k < n; k++ {
+				if !(lastMissing && k == n-1) {
+					put(fmt.Sprintf("s%d.inc", k), fmt.Sprintf("<%d:{{ v }}>", k))
+				}
+				mainSrc += fmt.Sprintf("{%% assign v = %d %%}{%% include \"s%d.inc\" %%}", k*k, k)
+				want += fmt.Sprintf("<%d:%d>", k, k*k)
+			}
+		} else {
+			for k := 1; k <= d; k++ {
+				if lastMissing && k == d {
+					break
+				}
+				body := fmt.Sprintf("[%d{{ v }}", k)
+				if k < d {
+					body += fmt.Sprintf("{%% include \"c%d.inc\" %%}", k+1)
+				}
+				put(fmt.Sprintf("c%d.inc", k), body+"]")
+			}
+			mainSrc = "{% assign v = 'V' %}{% include \"c1.inc\" %}"
+			want = ""
+			for k := 1; k <= d; k++ {
+				want += fmt.Sprintf("[%dV", k)
+			}
+			want += strings.Repeat("]", d)
+		}
+		r.Eval()
+		var o Outcome
+		o.Panic = explore.Safe(func() {
+			tpl, err := eng.ParseTemplateLocation([]byte(mainSrc), filepath.Join(dir, "main.html"), 1)
+			if err != nil {
+				o.Err = err
+				return
+			}
+			out, err := tpl.Render(map[string]any{})
+			o.Out, o.Err = string(out), err
+		})
+		desc := func() any {
+			return map[string]any{"main": trunc80(mainSrc), "depth_or_count": d, "siblings": siblings, "last_file_missing": lastMissing, "from_cache": cached}
+		}
+		r.Class(fmt.Sprintf("chain/%v/%v", siblings, lastMissing))
+		switch {
+		case o.Panic != nil:
+			r.Violation(o.Panic.Key(), desc(), "output or SourceError", o.String())
+		case lastMissing:
+			if o.Err == nil || o.Out != "" {
+				r.Violation("N2:no-error", desc(), "a SourceError (the last file is missing)", trunc80(o.String()))
+			}
+		case o.Err != nil || o.Out != want:
+			r.Violation("N1:wrong-chain-output", desc(), trunc80(want), trunc80(o.String()))
+		}
 	}}
 }
 
